@@ -86,7 +86,8 @@ def gen_case(rng, tier):
     base['init'] = enc(init)
     actor_schema = [['g', dict_schema([], out=True)], ['h', dict_schema([], out=True)]]
     actor_topo = [['g', GLOBS[0]], ['h', GLOBS[1]]]
-    if rng.random() < 0.7:
+    has_u9 = rng.random() < 0.7
+    if has_u9:
         # the children of the glob stores also hold a variable the probe did NOT declare
         for nm, G in (('e', GLOBS[0]), ('f', GLOBS[1])):
             actor_schema.append([nm, dict_schema([['*', dict_schema([['u9', leaf_schema(3)]])]])])
@@ -103,6 +104,7 @@ def gen_case(rng, tier):
     ops = []
     for _ in range(rng.choice([3, 4, 5, 6])):
         step = []
+        before = {0: list(kids[0]), 1: list(kids[1])}
         for _ in range(rng.choice([1, 1, 2])):
             gi = rng.randrange(2)
             port = 'gh'[gi]
@@ -135,6 +137,15 @@ def gen_case(rng, tier):
                 step.append({'op': 'move', 'port': port, 'key': k, 'target': 'gh'[1 - gi]})
                 kids[gi].remove(k)
                 kids[1 - gi].append(k)
+        if has_u9 and step and rng.random() < 0.5:
+            # the same update also carries an ordinary update of a child that this step leaves alone, in a branch
+            # of the update that comes after the structural one
+            used = {o['key'] for o in step} | {d for o in step for d in o.get('daughters', [])}
+            for gi2 in (1, 0):
+                cands = [k for k in before[gi2] if k in kids[gi2] and k not in used]
+                if cands and not any(o['op'] == 'move' for o in step):
+                    step.append({'op': 'touch', 'port': 'ef'[gi2], 'key': rng.choice(cands)})
+                    break
         ops.append(step)
     base['kind'] = 'hist'
     base['ops'] = ops
@@ -202,6 +213,8 @@ def _actor_update(step):
                             'daughters': [{'key': k, 'processes': {}, 'topology': {}} for k in o['daughters']]}
         elif o['op'] == 'move':
             d.setdefault('_move', []).append({'source': (o['key'],), 'target': o['target']})
+        elif o['op'] == 'touch':
+            d[o['key']] = {'u9': 1}
     return u
 
 
